@@ -218,7 +218,7 @@ def _run_scenario(sc):
             sc["_commit_ok"] = list(run.commit_ok)
             # files on which the binary deviates from the idealised model through a recorded finding
             idealised = {d.get("path") for sig, d in failures
-                         if sig == "uncommitted-ai-line-reindented-below-a-line-inserted-in-the-same-interval"}
+                         if sig == "uncommitted-ai-line-reindented-next-to-a-change-in-the-same-interval"}
             sc["_skip"] = sorted(o2_taint | idealised)
     except Exception as ex:
         failures.append(("runner-exception", {"error": repr(ex), "trace": traceback.format_exc()[-1500:]}))
